@@ -68,7 +68,7 @@ func c04RunCase(r *hx.Run, w *W, ps *plans, c c04Case, tg c04Target, rnd *rand.R
 	a := ans{Kind: "cacheable", T: c.T, Age: c.Age, SMax: c.SMax}
 	ps.set(c.URI, &plan{Seq: []ans{a}})
 	defer ps.del(c.URI)
-	m := &entryModel{}
+	m := &entryModel{LenientFresh: true}
 	epochs := 0
 	boundaryAt, boundaryAfter := false, false
 	var trace []interface{}
@@ -118,6 +118,7 @@ func c04RunCase(r *hx.Run, w *W, ps *plans, c c04Case, tg c04Target, rnd *rand.R
 		}
 	}
 	r.Add("epochs", int64(epochs))
+	r.Add("premature_refetches_(info,_judged_by_C01)", int64(m.PrematureRefetches))
 	if epochs >= 2 && (boundaryAt || boundaryAfter) {
 		r.Distinct(fmt.Sprintf("%s T=%d age=%s steps=%v", tg.name, c.T, c.Age, c.Steps))
 	}
@@ -166,8 +167,13 @@ func c04Directed(r *hx.Run, w *W, ps *plans, i int, t int64, refetch bool) {
 	r.Add("directed_tick_schedules", 1)
 	cs := map[string]interface{}{"uri": uri, "T": t, "schedule": "hit looked up at elapsed=T, clock +1 before Age() is computed", "refetch_in_between": refetch}
 	r.Distinct(fmt.Sprintf("directed T=%d refetch=%v", t, refetch))
-	if res.Err != nil || res.Label != "hit" || res.FetchID != first.FetchID {
-		r.Violate("directed_hit_wrong", nil, "hit at elapsed == T not served from the stored version", res.Brief(), cs)
+	if res.Err == nil && res.Label != "hit" {
+		// refetching at elapsed == T is premature, not stale: counted, not judged here
+		r.Add("directed_premature_refetches_(info)", 1)
+		return
+	}
+	if res.Err != nil || res.FetchID != first.FetchID {
+		r.Violate("directed_hit_wrong", nil, "hit at elapsed == T is not the stored version", res.Brief(), cs)
 		return
 	}
 	trueLo, trueHi := res.VCall-t0, res.VRet-t0
@@ -310,7 +316,7 @@ func c04Concurrent(r *hx.Run, w *W, ps *plans, rnd *rand.Rand, tickPerRead bool)
 }
 
 func c04(r *hx.Run) {
-	r.Rule = "sequential: generated histories (T from {1,2,3,5,10,60,3600,86400,2^31-1}, origin Age none/0/1/T-1, 6-15 steps of (advance d in {0,1,L-1,L,L+1,2L+3,L/2}, concurrent burst of 1-8) with the clock moved only at quiescence, replayed exactly against the entry model (both directions); directed: clock tick between lookup and Age(); concurrent: 16 clients under a ticking virtual clock judged by interval-sound bounds. Non-trivial = history with >=2 epochs that probed the exact expiry second or the one after; distinct = case spec."
+	r.Rule = "sequential: generated histories (T from {1,2,3,5,10,60,3600,86400,2^31-1}, origin Age none/0/1/T-1, 6-15 steps of (advance d in {0,1,L-1,L,L+1,2L+3,L/2}, concurrent burst of 1-8) with the clock moved only at quiescence, replayed against the entry model (a hit must be the current version inside its lifetime with the right Age, an expired entry must be refetched exactly once and replaced; a premature refetch is only counted - that is single flight, C01); directed: clock tick between lookup and Age(); concurrent: 16 clients under a ticking virtual clock judged by interval-sound bounds. Non-trivial = history with >=2 epochs that probed the exact expiry second or the one after; distinct = case spec."
 	r.Assume = []string{"time is pike's only clock seam cache.nowUnix, replaced by a virtual clock (hook)", "memory-only and store targets: no eviction (cache 100000 >> keys); the tiny-cache target evicts on purpose and relies on its (reliable, TTL-ignoring) in-memory store, so a fresh entry is still a hit after reload"}
 	rnd := rand.New(rand.NewSource(r.Seed))
 	ports := hx.FreePorts(3)
